@@ -18,7 +18,7 @@ from checks import sparqlgen as G
 from checks.c01 import lexicals_of, _features
 
 FAMILY = "syntax"
-KWS = ["SELECT", "DISTINCT", "FROM", "NAMED", "WHERE", "GROUP", "BY", "ORDER", "DESC", "ASC", "LIMIT", "UNION", "GRAPH", "FILTER", "BIND",
+KWS = ["PREFIX", "SELECT", "DISTINCT", "FROM", "NAMED", "WHERE", "GROUP", "BY", "ORDER", "DESC", "ASC", "LIMIT", "UNION", "GRAPH", "FILTER", "BIND",
        "AS", "VALUES", "INSERT", "DELETE", "DATA", "SUM", "MIN", "MAX", "AVG"]
 
 
@@ -29,7 +29,7 @@ def forms(k):
 AUX = {"kw": {k: forms(k) for k in KWS}, "mb": ["é", "✓", "😀", " ", "﻿"],
        "seps": [" ", "\n", "\t", "  ", "\r\n", "\r"], "comments": [" # c\n", " #\n", "\n# SELECT { \n", " # c\r", " # } LIMIT 1\r\n", "\r# é\r"],
        "tails": [" # done", "\n#", "\r"],
-       "cuts": ['"x\\u00E', "'x\\U0001F6", '"\\u', '"a\\', '"abc', "'", '<http://e/\\u00', '<http://e/\\U0000000', '<http://e/i', '"x\\u00é', "?", "$", "_:", '"l1"^^', '"l1"@',
+       "cuts": ["e:a%4", "e:caf%C3%A", "ex:g%", ":x%e", "e:", '"x\\u00E', "'x\\U0001F6", '"\\u', '"a\\', '"abc', "'", '<http://e/\\u00', '<http://e/\\U0000000', '<http://e/i', '"x\\u00é', "?", "$", "_:", '"l1"^^', '"l1"@',
                 '"""abc', "<<", "<< <http://e/i1>", "1.", "-", "+", "1e", "\\"]}
 # variable names outside ASCII (SPARQL VARNAME admits letters and digits of any script), and ones that end in a digit / underscore
 NAMES = [{"a": "é", "b": "café", "c": "x中", "d": "ß2", "g": "g"}, {"a": "a_1", "b": "B", "c": "ça", "d": "d9", "g": "gé"},
@@ -141,6 +141,12 @@ def gen_trees(seed, n):
         txt.update(extra)
         if i % 6 == 5:
             txt["~sigil"] = "$"
+        if i % 7 == 3 and kind != "group":
+            # a PREFIX prologue: IRIs of the namespace are written as prefixed names (only parse_combined_query reads a prologue)
+            txt["~prefix"] = G.NS
+            for x in list(txt):
+                if x.startswith(G.NS) and x[len(G.NS):].isalnum():
+                    txt[x] = "e:" + x[len(G.NS):]
         cases.append({"kind": kind, "tree": tree, "txt": txt})
     return cases
 
@@ -175,6 +181,8 @@ def run(ctx):
                 continue
             seen.add((b["text"], b["fault"]))
             parsers = {"select": ["combined", "select"], "update": ["combined"], "group": ["group"]}[t["kind"]]
+            if "~prefix" in t["txt"]:
+                parsers = ["combined"]
             for p in parsers:
                 cases.append({"text": b["text"], "parser": p, "fault": b["fault"], "kind": t["kind"], "tree": t["tree"], "i": b["i"]})
         vlib.write_ndjson(os.path.join(wd, "cases.ndjson"), cases)
